@@ -153,7 +153,17 @@ structure BBox where
   nc : Nat
   deriving Repr, DecidableEq
 
-/-- `i0, j0 = maximum(0, rowcol.min(axis=0)-1)`, `i1, j1 = min(n-1, rowcol.max(axis=0)+1)` -/
+/-- `i0, j0 = maximum(0, rowcol.min(axis=0)-1)`, `i1, j1 = min(n-1, rowcol.max(axis=0)+1)`,
+`nrows, ncols = i1-i0+1, j1-j0+1` from the extreme rows / columns of the area -/
+def bboxOf (nrows ncols rmin rmax cmin cmax : Int) : BBox :=
+  let i0 := max 0 (rmin - 1)
+  let j0 := max 0 (cmin - 1)
+  let i1 := min (nrows - 1) (rmax + 1)
+  let j1 := min (ncols - 1) (cmax + 1)
+  { i0 := i0, j0 := j0, nr := (i1 - i0 + 1).toNat, nc := (j1 - j0 + 1).toNat }
+
+/-- the rectangle of a non-empty area (`rowcol = flowdir.cell2rowcol(idxcells_area)`); `none` when the
+area is empty (the wrapper then sets `idxcells_area_filled = idxcells_area`) -/
 def bbox (g : FlowGrid) (area : List Int) : Option BBox :=
   match area with
   | [] => none
@@ -162,11 +172,7 @@ def bbox (g : FlowGrid) (area : List Int) : Option BBox :=
     let cols := cs.map fun a => (cell2rowcol g.nrows g.ncols a).2
     let r0 := (cell2rowcol g.nrows g.ncols c).1
     let c0 := (cell2rowcol g.nrows g.ncols c).2
-    let i0 := max 0 (minList r0 rows - 1)
-    let j0 := max 0 (minList c0 cols - 1)
-    let i1 := min (g.nrows - 1) (maxList r0 rows + 1)
-    let j1 := min (g.ncols - 1) (maxList c0 cols + 1)
-    some { i0 := i0, j0 := j0, nr := (i1 - i0 + 1).toNat, nc := (j1 - j0 + 1).toNat }
+    some (bboxOf g.nrows g.ncols (minList r0 rows) (maxList r0 rows) (minList c0 cols) (maxList c0 cols))
 
 /-- `grid[rowcol[:,0]-i0, rowcol[:,1]-j0] = 1` -/
 def areaMask (g : FlowGrid) (b : BBox) (area : List Int) (r c : Nat) : Bool :=
